@@ -270,8 +270,9 @@ def check_property(prop, tier, seed, jobs, write_evidence=True):
             "wall_s": round(wall, 2),
             "violations": len(violations),
         }
-        os.makedirs(os.path.join(HERE, "evidence"), exist_ok=True)
-        with open(os.path.join(HERE, "evidence", prop + ".json"), "w") as fh:
+        evdir = os.environ.get("PYVC_EVIDENCE_DIR") or os.path.join(HERE, "evidence")
+        os.makedirs(evdir, exist_ok=True)
+        with open(os.path.join(evdir, prop + ".json"), "w") as fh:
             json.dump(ev, fh, indent=1)
     print("%s tier=%s: %d obligations, %d discharged, %d cases, %d violations, %d undecided, %d errors, %.1fs" % (
         prop, tier, n_obl, n_proved, len(tasks), len(violations), len(undecided), len(errors), wall))
